@@ -272,7 +272,7 @@ func (n *node[T]) popLeftMost() (child, leftMost *node[T]) {
 	newLeft, popped := n.left.popLeftMost()
 	n.left = newLeft
 	n.height = n.calcHeight()
-	return n, popped
+	return n.rebalance(), popped
 }
 
 func (n *node[T]) add(value T, compare func(a, b T) int) *node[T] {
